@@ -111,8 +111,8 @@ def case_guard(B, cfg):
 
 def jobs(tier):
     out = []
-    ns = [1, 2, 3] if tier == 'quick' else [1, 2, 3, 4, 5]
-    Ps = [0, 1, 2] if tier == 'quick' else [0, 1, 2, 3]
+    ns = [1, 2, 3] if tier == 'quick' else [1, 2, 3, 4, 5, 6, 8]
+    Ps = [0, 1, 2] if tier == 'quick' else [0, 1, 2, 3, 4]
     for name in refs.ERROR_MODELS:
         for n in ns:
             out.append(('value', 'case_value', dict(model=name, n=n), {}))
@@ -131,7 +131,7 @@ def jobs(tier):
 
 BOUNDS = dict(
     quick='n_obs in 1..3, sensitivity width P in 0..2, 4 error models',
-    thorough='n_obs in 1..5, sensitivity width P in 0..3, 4 error models',
+    thorough='n_obs in {1..6, 8}, sensitivity width P in 0..4, 4 error models',
     outside='longer vectors; floating-point rounding (reals are used); '
             'multiplicative models with non-positive sigma_tot')
 TRUSTED = ['z3 (QF_NRA with abstracted log/exp atoms + instantiated lemmas)',
